@@ -50,6 +50,12 @@ pub trait Scalar: SplineNum + PartialEq + 'static {
     fn is_poison(self) -> bool;
     /// a second junk value for storage outside views
     fn junk() -> Self;
+    /// inverse of the `Debug` formatting the crate uses in its error messages
+    fn parse_debug(s: &str) -> Option<Self>;
+    /// `show`, with every NaN printed alike
+    fn show_canon(self) -> String {
+        self.show()
+    }
 }
 
 impl Scalar for Q {
@@ -69,6 +75,9 @@ impl Scalar for Q {
     fn junk() -> Self {
         Q::from_ratio(-123_456_789_123, 9_876_543_211)
     }
+    fn parse_debug(s: &str) -> Option<Self> {
+        Q::parse(s)
+    }
 }
 
 impl Scalar for Z {
@@ -87,6 +96,9 @@ impl Scalar for Z {
     }
     fn junk() -> Self {
         Z(-123_456_789_123)
+    }
+    fn parse_debug(s: &str) -> Option<Self> {
+        s.parse::<i64>().ok().map(Z)
     }
 }
 
@@ -112,6 +124,16 @@ impl Scalar for f64 {
     }
     fn junk() -> Self {
         f64::from_bits(JUNK_BITS)
+    }
+    fn parse_debug(s: &str) -> Option<Self> {
+        s.parse::<f64>().ok()
+    }
+    fn show_canon(self) -> String {
+        if self.is_nan() {
+            "nan".into()
+        } else {
+            self.show()
+        }
     }
 }
 
